@@ -1147,8 +1147,8 @@ func (w *world) compareContent(slots []int, where string) *hx.Failure {
 // few times; only a document that never arrives although A and B are
 // connected and B is subscribed is reported.
 func (w *world) pubsubFinal() *hx.Failure {
-	const rounds = 8
-	const perRound = 8 * time.Second
+	const rounds = 6
+	const perRound = 6 * time.Second
 	live := []int{}
 	for _, slot := range w.slots() {
 		if slot >= 0 && !w.docs[slot].deleted {
@@ -1164,8 +1164,8 @@ func (w *world) pubsubFinal() *hx.Failure {
 				w.tr.f("explicit connect A->B failed: %v", err)
 			}
 		}
-		if round == 3 {
-			// Nothing after three rounds: reconnect once more, cleanly. The claim for pubsub-only
+		if round == 2 {
+			// Nothing after two rounds: reconnect once more, cleanly. The claim for pubsub-only
 			// configurations is delivery after a reconnection, so this stays within its precondition;
 			// a case that only recovers here is counted (label) and not reported.
 			w.cleanReconnect()
